@@ -66,3 +66,14 @@ pub proof fn lemma_wr_n_compose<T: Dev>(a: &T, b: &T, c: &T, w1: Seq<u8>, w2: Se
 {
     lemma_put_put(a.g_bytes(), a.g_pos(), w1, a.g_pos() + w1.len(), w2);
 }
+// a region that lies entirely above an overwrite (and inside the old content) is untouched by it
+pub proof fn lemma_at_above(b: Seq<u8>, p: int, w: Seq<u8>, q: int, n: int)
+    requires 0 <= p, p + w.len() <= q, 0 <= n, q + n <= b.len()
+    ensures at(put(b, p, w), q, n) == at(b, q, n), inb(put(b, p, w), q, n)
+{
+    reveal(put);
+    if w.len() > 0 {
+        assert(put(b, p, w).len() == b.len());
+        assert(at(put(b, p, w), q, n) =~= at(b, q, n));
+    }
+}
